@@ -1235,6 +1235,20 @@ example : Consistent exMDP := by
   have hs' : s = 0 ∨ s = 1 := by simp only [exMDP] at hs; omega
   have ha' : a = 0 ∨ a = 1 := by simp only [exMDP] at ha; omega
   rcases hs' with rfl | rfl <;> rcases ha' with rfl | rfl <;> norm_num [exMDP, sumTo]
+example : RepOK exMDP .generic := by
+  intro s a hs ha
+  have hs' : s = 0 ∨ s = 1 := by simp only [exMDP] at hs; omega
+  have ha' : a = 0 ∨ a = 1 := by simp only [exMDP] at ha; omega
+  rcases hs' with rfl | rfl <;> rcases ha' with rfl | rfl <;> norm_num [exMDP, sumTo]
+example : ValidPi exMDP (fun _ _ => 1/2) := by
+  constructor
+  · intro s a; norm_num
+  · intro s _; norm_num [exMDP, sumTo]
+/-- the optimality equation of the example has the solution V* = (1/4, 0): `IsFixedPoint` is satisfiable -/
+example : IsFixedPoint exMDP (fun s => if s = 0 then 1/4 else 0) := by
+  intro s hs
+  have hs' : s = 0 ∨ s = 1 := by simp only [exMDP] at hs; omega
+  rcases hs' with rfl | rfl <;> norm_num [bellman, maxTo, qBackup, sumTo, exMDP]
 example : 0 < exMDP.A ∧ 0 ≤ exMDP.γ ∧ exMDP.γ < 1 := by norm_num [exMDP]
 /-- tolerance 0 disables the stopping rule, 1e-3 enables it (constants from the generated module) -/
 example : useTolerance 0 = false := by
